@@ -12,7 +12,7 @@ def driver(prec="d", variant="verif"):
     return build.harness("drv_api_" + prec, ["drv_api.c", "verif_rt.c", "verif_wrap_lacon.c"], variant=variant, defines=["PREC=%d" % PRECS[prec]],
                          wrap=["xerbla_", "malloc", "free", "calloc", "pthread_mutex_unlock", "slacon_", "dlacon_", "clacon_", "zlacon_", "sp_strsv", "sp_dtrsv", "sp_ctrsv", "sp_ztrsv", "sgscon", "dgscon", "cgscon", "zgscon",
                                "sgsrfs", "dgsrfs", "cgsrfs", "zgsrfs", "sgstrs", "dgstrs", "cgstrs", "zgstrs", "sp_sgemv", "sp_dgemv", "sp_cgemv", "sp_zgemv"]
-                         + [p + k for p in "sdcz" for k in ("lsolve", "usolve", "matvec", "trsv_")])
+                         + [p + k for p in "sdcz" for k in ("lsolve", "usolve", "matvec", "trsv_", "trsm_", "gemm_", "gemv_")])
 
 
 # ---------------------------------------------------------------- history enumeration
@@ -306,13 +306,17 @@ def split_factorizations(path):
 # ---------------------------------------------------------------- the caller's workspace as a two-ended stack (SluStack)
 def stack_events(path):
     """the Stk* events of an executed script, in order (they are logged under the stack lock with a global sequence number)"""
-    out = []
+    out, n = [], 0
     with open(path) as f:
         for ln in f:
             if ln.startswith('{"e":"Stk'):
                 r = json.loads(ln)
                 out.append({"e": r["e"], "a": r["a"]})
-    return out
+                n += 1
+            elif ln.startswith('{"e":"CallBegin"') and '"refact"' in ln:
+                # what the caller asked for: a first factorization sets the workspace up, a re-factorization keeps its head (SluStackTrace!TCtx)
+                out.append({"e": "StkCtx", "a": [json.loads(ln)["refact"]]})
+    return out if n else []
 
 
 def validate_stack(workdir, name, path, timeout=300):
